@@ -156,6 +156,11 @@ type Case struct {
 	ViaCallback bool `json:"via_callback,omitempty"`
 	// UseCallResult: the caller uses Client.CallResult instead of Client.Call.
 	UseCallResult bool `json:"use_call_result,omitempty"`
+	// Via: the caller uses Client.Batch and learns the outcome from the
+	// *Response: "batch" rsp.Error(), "batchraw" rsp.UnmarshalResult(&json.RawMessage),
+	// "batchany" rsp.UnmarshalResult(&any), "marshal" json.Marshal(rsp) (what a
+	// proxy such as the HTTP bridge forwards).
+	Via string `json:"via,omitempty"`
 }
 
 func jsonEqual(a, b []byte) bool { return refjson.Equal(a, b) }
@@ -229,7 +234,55 @@ func run(t *testing.T, c Case) (v engine.Verdict) {
 				}
 			}
 			loc := server.NewLocal(handler.Map{"ok": func(ctx context.Context, req *jrpc2.Request) (any, error) { return "fine", nil }, "m": m}, lopts)
-			if c.UseCallResult {
+			if c.Via != "" {
+				rsps, berr := loc.Client.Batch(context.Background(), []jrpc2.Spec{{Method: "ok"}, {Method: "m"}})
+				switch {
+				case berr != nil:
+					cerr = fmt.Errorf("Batch failed: %w", berr)
+				case len(rsps) != 2:
+					cerr = fmt.Errorf("Batch returned %d responses", len(rsps))
+				default:
+					r := rsps[1]
+					switch c.Via {
+					case "batch":
+						if e := r.Error(); e != nil {
+							cerr = e
+						} else {
+							wire, _ = json.Marshal(r)
+						}
+					case "batchraw":
+						raw := json.RawMessage(`"untouched"`)
+						cerr = r.UnmarshalResult(&raw)
+						if cerr == nil {
+							wire = raw
+						} else if string(raw) != `"untouched"` {
+							after = fmt.Sprintf("UnmarshalResult reported %v and still overwrote its target with %q", cerr, raw)
+						}
+					case "batchany":
+						var out any
+						cerr = r.UnmarshalResult(&out)
+						if cerr == nil {
+							wire, _ = json.Marshal(out)
+						}
+					case "marshal":
+						b, merr := json.Marshal(r)
+						var m struct {
+							Error *struct {
+								Code    int             `json:"code"`
+								Message string          `json:"message"`
+								Data    json.RawMessage `json:"data"`
+							} `json:"error"`
+						}
+						if merr != nil || json.Unmarshal(b, &m) != nil {
+							cerr = fmt.Errorf("the response does not marshal: %v %s", merr, b)
+						} else if m.Error != nil {
+							cerr = &jrpc2.Error{Code: jrpc2.Code(m.Error.Code), Message: m.Error.Message, Data: m.Error.Data}
+						} else {
+							wire = b
+						}
+					}
+				}
+			} else if c.UseCallResult {
 				var out any
 				cerr = loc.Client.CallResult(context.Background(), "m", nil, &out)
 				if cerr == nil {
@@ -277,6 +330,11 @@ func run(t *testing.T, c Case) (v engine.Verdict) {
 	switch {
 	case cerr == nil:
 		return engine.Failf("C14/error-lost", "handler returned %v, the client got success", herr)
+	case c.Via != "" && (want == -32097 || want == -32096):
+		// a *Response carries the context codes as an error object
+		if got := int(jrpc2.ErrorCode(cerr)); got != want {
+			return engine.Failf("C14/code-changed", "ErrorCode of the handler's error %v is %d, the batch response (%s) reports %v with code %d", herr, want, c.Via, cerr, got)
+		}
 	case want == -32097:
 		if cerr != context.Canceled {
 			return engine.Failf("C14/sentinel", "handler error %v classifies as Cancelled, the client got %T %v, want exactly context.Canceled", herr, cerr, cerr)
@@ -354,7 +412,8 @@ func genSpec(t *rapid.T, depth int) ErrSpec {
 
 func genCase(t *rapid.T) Case {
 	if rapid.IntRange(0, 19).Draw(t, "bad") == 0 {
-		return Case{BadResult: rapid.SampledFrom([]string{"chan", "func", "nan", "cycle", "badraw", "emptyraw", "baderrdata"}).Draw(t, "badkind"), ViaCallback: rapid.IntRange(0, 2).Draw(t, "viacb") == 0}
+		return Case{BadResult: rapid.SampledFrom([]string{"chan", "func", "nan", "cycle", "badraw", "emptyraw", "baderrdata"}).Draw(t, "badkind"), ViaCallback: rapid.IntRange(0, 2).Draw(t, "viacb") == 0,
+			Via: rapid.SampledFrom([]string{"", "", "batch", "batchraw", "marshal"}).Draw(t, "via")}
 	}
 	s := genSpec(t, 0)
 	c := Case{Spec: &s}
@@ -365,6 +424,7 @@ func genCase(t *rapid.T) Case {
 		c.ViaCallback = true
 	}
 	c.UseCallResult = rapid.IntRange(0, 3).Draw(t, "callresult") == 0
+	c.Via = rapid.SampledFrom([]string{"", "", "", "batch", "batchraw", "batchany", "marshal"}).Draw(t, "via")
 	return c
 }
 
